@@ -7,7 +7,7 @@ from vf.ob import obligation, shard
 from tartiflette import Resolver
 
 META = {
-    "bounds": "request sequences of length <= 3 over a pool of 12 documents (valid incl. fragments on interface / implementer, variables nested in object/list literals and multi-operation, invalid, syntactically broken, "
+    "bounds": "request sequences of length <= 3 over a pool of 13 documents (valid incl. fragments on interface / implementer, variables nested in object/list literals and multi-operation, invalid, syntactically broken, "
               "runtime-failing) x str/bytes spelling x per-request int variable (unbounded) x operation name; 4 cache configurations: default lru_cache(512) (real, CrossHair's cache "
               "bypass removed), lru_cache(1), custom dict decorator, cache disabled",
     "outside": "sequences longer than 3; cache decorators other than these four",
@@ -82,15 +82,16 @@ POOL = [
     "{ dog { ...P } pets { name } } fragment P on Pet { name }",          # valid: a fragment on the interface inside an object-typed selection
     "{ pets { ...C } } fragment C on Cat { name }",                       # valid: a fragment on one implementer inside the interface-typed selection
     "{ dog { ...C } } fragment C on Cat { name }",                        # invalid (5.5.2.3): Cat can never apply inside Dog
+    b"{ a \xff }",                                                        # bytes that are not valid UTF-8 (always sent as bytes): a syntax error, cached or not
 ]
 I32 = 2 ** 31
 
 
 def oracle(idx, v, opsel):
     """the response every engine must give, written by hand from the pool: (data or None, has errors)"""
-    provided = "$v" in POOL[idx] and not (idx in (3, 8) and v is None)
-    if idx in (4, 5, 6, 11):
+    if idx in (4, 5, 6, 11, 12):
         return None, True
+    provided = "$v" in POOL[idx] and not (idx in (3, 8) and v is None)
     if provided and v is not None and not (-I32 <= v < I32):
         return None, True                 # variable coercion refuses the request
     if idx == 0:
@@ -124,34 +125,48 @@ def matches(r, exp):
     return got == data
 
 
+def _clear(h):
+    """per-path determinism only (an engine-private handle): follow wrappers down to whatever offers cache_clear; nothing to clear is fine"""
+    seen = 0
+    while h is not None and seen < 5:
+        cc = getattr(h, "cache_clear", None)
+        if cc is not None:
+            cc()
+            return
+        nxt = getattr(h, "__wrapped__", None)
+        if nxt is None and getattr(h, "__closure__", None):
+            nxt = next((c.cell_contents for c in h.__closure__ if callable(getattr(c.cell_contents, "cache_clear", None))), None)
+        h = nxt; seen += 1
+
+
 def reset_caches():
     for h in HANDLES:
-        h.cache_clear()
+        _clear(h)
     DICT.d.clear()
 
 
 def send(eng, idx, v, asbytes, opsel):
     q = POOL[idx]
-    if asbytes:
+    if asbytes and isinstance(q, str):
         q = q.encode("utf-8")
     op = None
     if idx == 3:
         op = "B" if opsel else "A"
     ctx = {"fail": idx == 7 and opsel}
-    variables = {"v": v} if "$v" in POOL[idx] and not (idx in (3, 8) and v is None) else {}      # None = variable not provided where a default exists
+    variables = {"v": v} if isinstance(POOL[idx], str) and "$v" in POOL[idx] and not (idx in (3, 8) and v is None) else {}      # None = variable not provided where a default exists
     return env.run(eng.execute(q, variables=variables, operation_name=op, context=ctx))
 
 
 SH16 = [{"cfg": c, "first": f, "second": g, "b1": b, "o": o} for c in ENGS for f in range(len(POOL)) for g in range(len(POOL)) for b in (1, 0) for o in (1, 0) if c == "default" or (b, o) == (1, 1)]
 Q16 = [i for i, s in enumerate(SH16) if ((s["b1"], s["o"]) == (1, 1) or (s["cfg"], s["first"], s["second"], s["b1"], s["o"]) == ("default", 3, 3, 0, 0)) and (s["cfg"], s["first"], s["second"]) in (("default", 0, 0), ("default", 1, 1), ("default", 2, 2), ("default", 3, 3), ("default", 6, 0), ("default", 4, 1),
-                                                                               ("lru1", 1, 0), ("lru1", 2, 4), ("default", 9, 10), ("default", 11, 10), ("none", 9, 10), ("lru1", 11, 9), ("dict", 10, 9), ("dict", 2, 2), ("dict", 8, 8), ("none", 1, 1), ("default", 7, 7))]
+                                                                               ("lru1", 1, 0), ("lru1", 2, 4), ("default", 9, 10), ("default", 11, 10), ("default", 12, 12), ("dict", 12, 0), ("lru1", 0, 12), ("none", 9, 10), ("lru1", 11, 9), ("dict", 10, 9), ("dict", 2, 2), ("dict", 8, 8), ("none", 1, 1), ("default", 7, 7))]
 
 
 @obligation(tier="quick", timeout=300, thorough_timeout=900, shards=SH16, quick_shards=Q16,
             samples=[{"i2": 1, "v0": 1, "v1": 2, "b1": True, "o": True}, {"i2": 0, "v0": 2**31, "v1": None, "b1": False, "o": False}],
             symbolic=["v0: int, v1: Optional[int] — the variables of the first two requests (unbounded); the third request reuses v0"],
             selectors=["i2: pool index of the 3rd request", "shard: cache configuration, first and second request, str/bytes spelling of the 2nd request (the 3rd uses the other one), operation name / failure selector"],
-            bounds="sequences of 3 requests (every prefix is checked position by position) over 12 documents",
+            bounds="sequences of 3 requests (every prefix is checked position by position) over 13 documents",
             note="every response of the sequence == the uncached engine's response to the same request; repeating a request gives the same response; failed/invalid requests leave no trace")
 def c16_history(i2: int, v0: int, v1: Optional[int], b1: bool, o: bool) -> bool:
     """
